@@ -50,7 +50,7 @@ func genSet(r *hx.Rng, big bool) (*sampleSet, *setInfo) {
 	seen := map[string]bool{}
 	fracSet := r.Chance(15)
 	for _, name := range names {
-		nSeries := 1 + r.Intn(4)
+		nSeries := 2 + r.Intn(5)
 		kind := r.Intn(3) // 0 counter, 1 gauge, 2 mixed per series
 		for k := 0; k < nSeries; k++ {
 			var ls []label
@@ -171,8 +171,8 @@ type exprGen struct {
 
 func (g *exprGen) pick(xs []string) string { return xs[g.r.Intn(len(xs))] }
 
-func (g *exprGen) genRx(ln string) *rx {
-	pool := labelPool[ln]
+func (g *exprGen) genRx(ln, lv string) *rx {
+	pool := append([]string{lv, lv}, labelPool[ln]...)
 	lit := func() *rx { return &rx{kind: "lit", s: pool[g.r.Intn(len(pool))]} }
 	switch g.r.Intn(8) {
 	case 0:
@@ -217,22 +217,48 @@ func (g *exprGen) genSelector() *selector {
 	default:
 		nm = 2
 	}
+	// label values that occur on the series of the selected metric(s): most matchers are drawn
+	// from them, so that most selectors select something
+	var present []label
+	for _, sr := range g.set.series {
+		nm0 := ""
+		for _, l := range sr.labels {
+			if l.name == "__name__" {
+				nm0 = l.value
+			}
+		}
+		if s.matchers[0].kind == "eq" && nm0 != name {
+			continue
+		}
+		for _, l := range sr.labels {
+			if l.name != "__name__" {
+				present = append(present, l)
+			}
+		}
+	}
 	for i := 0; i < nm; i++ {
 		ln := g.pick(labelNames)
+		lv := g.pick(labelPool[ln])
+		if len(present) > 0 && g.r.Chance(75) {
+			l := present[g.r.Intn(len(present))]
+			ln, lv = l.name, l.value
+		}
 		m := matcher{label: ln}
-		switch g.r.Intn(9) {
-		case 0, 1:
-			m.kind, m.lit = "eq", g.pick(labelPool[ln])
-		case 2:
-			m.kind, m.lit = "ne", g.pick(labelPool[ln])
-		case 3:
+		switch g.r.Intn(18) {
+		case 0, 1, 2, 3, 4, 5:
+			m.kind, m.lit = "eq", lv
+		case 6, 7:
+			m.kind, m.lit = "ne", lv
+		case 8:
 			m.kind, m.lit = "eq", "" // label absent
-		case 4:
+		case 9:
 			m.kind, m.lit = "ne", "" // label present
-		case 5, 6:
-			m.kind, m.re = "re", g.genRx(ln)
-		case 7:
-			m.kind, m.re = "nre", g.genRx(ln)
+		case 10, 11, 12, 13:
+			m.kind, m.re = "re", g.genRx(ln, lv)
+		case 14, 15:
+			m.kind, m.re = "nre", g.genRx(ln, lv)
+		case 16:
+			m.kind, m.lit = "ne", "nosuch"
 		default:
 			m.kind, m.lit = "eq", "nosuch"
 		}
@@ -350,6 +376,24 @@ func (g *exprGen) genBin(t int64, depth int) expr {
 		b.l, b.r = num(), g.genVector(t, depth)
 	default:
 		b.l, b.r = g.genVector(t, depth), g.genVector(t, depth)
+		if g.r.Chance(60) {
+			// same metric on both sides (otherwise most label sets have no partner)
+			var first *selector
+			b.l.walk(func(x expr) {
+				if sl, ok := x.(*selector); ok && first == nil {
+					first = sl
+				}
+			})
+			b.r.walk(func(x expr) {
+				if sl, ok := x.(*selector); ok && first != nil {
+					sl.matchers[0] = first.matchers[0]
+					sl.braces = first.braces
+					if g.r.Chance(50) {
+						sl.matchers = sl.matchers[:1]
+					}
+				}
+			})
+		}
 		switch g.r.Intn(3) {
 		case 1:
 			b.match, b.labels = "on", g.genLabels()
@@ -379,7 +423,10 @@ func (g *exprGen) evalTime() int64 {
 	case 7:
 		return epochMs + int64(g.r.Intn(int(g.info.maxT-epochMs)/1000+1))*1000
 	case 8:
-		return g.info.maxT + int64(g.r.Intn(400_000))
+		if g.r.Chance(40) {
+			return g.info.maxT + int64(g.r.Intn(400_000))
+		}
+		return base + int64(g.r.Intn(60_000))
 	default:
 		return g.info.minT + int64(g.r.Intn(int(g.info.maxT-g.info.minT)+1))
 	}
@@ -397,7 +444,10 @@ func (g *exprGen) genQuery() *query {
 		depth = 2
 	}
 	e := g.genVector(t, depth)
-	q := &query{e: e, text: e.text(), start: t, end: t}
+	q := &query{e: e, text: e.text(), start: t, end: t, lb: lookbackMs}
+	if g.r.Chance(10) {
+		q.lb = []int64{60_000, 120_000, 600_000, 45_500}[g.r.Intn(4)]
+	}
 	if g.r.Chance(40) {
 		q.step = []int64{15_000, 30_000, 60_000, 7_000, 100_000, 1_000, 250, 300_000}[g.r.Intn(8)]
 		k := int64(2 + g.r.Intn(10))
